@@ -4,7 +4,7 @@ func init() {
 	commands["C02"] = func(o Opts) { runDBProfile(o, profC02, nil) }
 }
 
-var stdWeights = map[string]int{"put": 34, "activate": 14, "delver": 14, "del": 5, "get": 8, "getver": 9, "info": 6, "list": 4, "getcond": 6}
+var stdWeights = map[string]int{"put": 34, "activate": 14, "delver": 14, "del": 5, "get": 8, "getver": 9, "info": 6, "list": 4} // conditional get is C09's
 
 var profC02 = &dbProfile{
 	Name: "C02", N: map[string]int{"quick": 400, "thorough": 20000}, MinLen: 4, MaxLen: 40,
